@@ -154,3 +154,18 @@ package hash
 //@     invariant {C14} header: rangeindex == -1 ==> res == "*" ++ (itoa(len(params.Command) - 2) ++ "\r\n")
 //@     iteration {C14} step: rangeindex == atheader(rangeindex) + 1
 //@     iteration {C14} entry: (h0(params)[harg(params, rangeindex + 2)] == nil || isstr(h0(params)[harg(params, rangeindex + 2)]) || isint(h0(params)[harg(params, rangeindex + 2)])) ==> res == atheader(res) ++ hpiece(h0(params)[harg(params, rangeindex + 2)])
+
+// HRANDFIELD key [count [WITHVALUES]]: the whole hash is replied only when at least as many distinct fields are requested
+// (count >= number of fields); a negative count asks for |count| fields with repetitions, picked from a non-empty list.
+// (Which fields are picked is math/rand: not decided. Distinctness for a positive count goes through slices.DeleteFunc with a
+// closure that reads the slice being compacted: not decided.)
+//@ func handleHRANDFIELD props C14,C12,C13
+//@   requires generic.henv(params)
+//@   assumes own-cmd: len(params.Command) >= 2 ==> disjointarr(params.Command, $srv.keysWithExpiry.keys[dbof(params.Context)])
+//@   assumes stored-wf: len(params.Command) >= 2 && ishash(hval(params, hkey(params))) ==> !fresh(ashash(hval(params, hkey(params)))) && hwf(ashash(hval(params, hkey(params))))
+//@   ensures {C14} zero: (len(params.Command) == 3 || len(params.Command) == 4) && atoiok(harg(params, 2)) && atoi(harg(params, 2)) == 0 ==> result1 == nil && bstr(result0) == "*0\r\n"
+//@   ensures {C14} badcount: (len(params.Command) == 3 || len(params.Command) == 4) && !atoiok(harg(params, 2)) ==> result1 != nil
+//@   assert @Sprintf#6 {C14} whole-only-if-enough: count >= len(hash) && len(hash) > 0
+//@   assert @Intn#0 {C14,C12} pick-from-nonempty: len(hash) > 0
+//@   ensures {C13,C14} pure: hpure(params)
+//@   ensures {C13,C14} content: hcontent(params)
